@@ -100,9 +100,9 @@ def refSleep (P : MtPrims σ T DT B) (next brk : MtLocals T DT → σ → Res (M
   else if L.v11 ≤ ttOk / 2 then
     refAgain P next { L with v3 := true } (P.blockingSleep L.v11 w)
   else if L.v11 ≤ L.v0 then
-    .sleep L.v11 (fun w => refAgain P next { L with v3 := true } w)
+    .sleep L.v11 w (fun w => refAgain P next { L with v3 := true } w)
   else
-    .waitQueue (L.v11 - L.v0) (fun got w =>
+    .waitQueue (L.v11 - L.v0) w (fun got w =>
       if got then brk { L with v3 := false, v2 := true } w
       else refAgain P next { L with v3 := false } w)
 
